@@ -4,6 +4,7 @@ use std::sync::atomic::{AtomicBool, Ordering};
 use std::sync::{Arc, Mutex};
 use vcore::driver::{self, CheckDef, Ctx, PartResult, PartSpec};
 use vcore::json;
+use serde_json::Value;
 use vcore::vseq;
 
 type Log = Arc<Mutex<Vec<String>>>;
@@ -84,6 +85,12 @@ struct Model {
     depth: usize,
     non_lifo: bool,
     forgot: bool,
+    /// What the two recorded findings look like, precisely: a single per-thread slot; a guard / closure scope remembers
+    /// the slot's previous content and writes it back when it ends (a forgotten guard never does). Only a deviation from
+    /// the reference that this mechanism predicts is one of the known findings; any other deviation is reported.
+    mech_slot: Option<usize>,
+    mech_gprev: Vec<Option<usize>>,
+    mech_cprev: Vec<Option<usize>>,
 }
 impl Model {
     fn enabled(&self, nrec: usize, max_nest: usize, max_guards: usize) -> Vec<Step> {
@@ -113,10 +120,13 @@ impl Model {
     fn apply(&mut self, s: Step) {
         match s {
             Step::Set(r) => {
+                self.mech_gprev.push(self.mech_slot);
+                self.mech_slot = Some(r);
                 self.scopes.push((Some(self.guards.len()), r));
                 self.guards.push((r, GState::Live, self.depth));
             }
             Step::DropG(i) => {
+                self.mech_slot = self.mech_gprev[i];
                 let pos = self.scopes.iter().position(|sc| sc.0 == Some(i)).unwrap();
                 if pos != self.scopes.len() - 1 {
                     self.non_lifo = true;
@@ -132,6 +142,8 @@ impl Model {
                 self.scopes.remove(pos);
             }
             Step::Enter(r) => {
+                self.mech_cprev.push(self.mech_slot);
+                self.mech_slot = Some(r);
                 self.depth += 1;
                 self.scopes.push((None, r));
             }
@@ -151,6 +163,7 @@ impl Model {
                     self.non_lifo = true; // a guard created inside was moved out and outlives the closure
                 }
                 self.scopes.remove(pos);
+                self.mech_slot = self.mech_cprev.pop().unwrap();
                 self.depth -= 1;
             }
         }
@@ -195,31 +208,53 @@ fn probe(log: &Log) -> Vec<String> {
 }
 
 fn check_probe(m: &Model, got: &[String], global: Option<usize>, step: usize, out: &mut Outcome) {
-    if out.bad.is_some() {
+    // a deviation that is one of the recorded findings does not end the judgement of the program: a later deviation of
+    // another kind replaces it
+    let recorded = |b: &Option<(String, String, usize)>| matches!(b, Some((s, _, _)) if s == "forgotten-guard" || s == "non-lifo-guard-drop");
+    if out.bad.is_some() && !recorded(&out.bad) {
         return;
     }
+    let mut now = Outcome { bad: None };
+    check_probe_inner(m, got, global, step, &mut now);
+    if now.bad.is_some() && (out.bad.is_none() || !recorded(&now.bad)) {
+        out.bad = now.bad;
+    }
+}
+
+fn check_probe_inner(m: &Model, got: &[String], global: Option<usize>, step: usize, out: &mut Outcome) {
     let who: Vec<usize> = got.iter().map(|l| l.split('|').next().unwrap().parse().unwrap()).collect();
     let describe = |w: Option<usize>| match w {
         Some(r) if Some(r) == global => "the global recorder".to_string(),
         Some(r) => format!("local recorder r{}", r),
         None => "nobody (no-op)".to_string(),
     };
+    // is this deviation exactly what the recorded mechanism (see `Model::mech_slot`) does after a leaked guard or a
+    // non-LIFO drop? Only then is it one of the two known findings.
+    let mech = m.mech_slot.or(global);
+    let mech_n = if mech.is_some() { 8 } else { 0 };
+    let as_recorded = who.len() == mech_n && who.iter().all(|w| Some(*w) == mech);
     // safety clause first: never a recorder whose borrow has ended
     for w in &who {
         if Some(*w) != global && !m.borrowed(*w) {
-            let sig = if m.forgot { "forgotten-guard" } else if m.non_lifo { "non-lifo-guard-drop" } else { "dispatch-after-borrow-ended" };
+            let sig = if m.forgot && as_recorded { "forgotten-guard" } else if m.non_lifo && as_recorded { "non-lifo-guard-drop" } else { "dispatch-after-borrow-ended" };
             out.bad = Some((sig.into(), format!("an emission was dispatched to r{} although every borrow that installed it has ended", w), step));
             return;
         }
     }
     if m.forgot {
-        return; // routing after a leaked guard is not specified beyond the safety clause
+        // routing after a leaked guard is not specified beyond the safety clause, but each emission is still delivered
+        // exactly once and all of them to the same place
+        let uniform = (who.is_empty() || who.len() == 8) && who.windows(2).all(|p| p[0] == p[1]);
+        if !uniform {
+            out.bad = Some(("emission-not-delivered-exactly-once".into(), format!("after a leaked guard the 8 probe emissions were received by {:?}", who), step));
+        }
+        return;
     }
     let want = m.current().or(global);
     let want_n = if want.is_some() { 8 } else { 0 };
     let ok = who.len() == want_n && who.iter().all(|w| Some(*w) == want);
     if !ok {
-        let sig = if m.non_lifo { "non-lifo-guard-drop" } else { "emission-reached-wrong-recorder" };
+        let sig = if m.non_lifo && as_recorded { "non-lifo-guard-drop" } else { "emission-reached-wrong-recorder" };
         let got_desc: Vec<String> = who.iter().map(|w| describe(Some(*w))).collect();
         out.bad = Some((sig.into(), format!("the 8 probe emissions (incl. one nested inside a recorder method, one whose recorder method panics, one after that panic) should each reach {} exactly once; received by {:?}", describe(want), got_desc), step));
     }
@@ -750,6 +785,10 @@ fn parts(ctx: &Ctx) -> Vec<PartSpec> {
         PartSpec::new("two-threads", json!({"p": "threads"})),
         PartSpec::new("global-installed-mid-history", json!({"p": "install", "steps": if ctx.quick() { 3 } else { 4 }})),
         PartSpec::new("macro-forms", json!({"p": "macros"})),
+        // E2: the global cell's own state machine while emissions look it up (real cell.rs under loom)
+        PartSpec::new("loom-cell_pre_1l1r", json!({"p": "loom", "loom": "cell_pre_1l1r", "pb": if ctx.quick() { json!(3) } else { Value::Null }})),
+        PartSpec::new("loom-cell_pre_1l2r", json!({"p": "loom", "loom": "cell_pre_1l2r", "pb": if ctx.quick() { json!(2) } else { Value::Null }})),
+        PartSpec::new("loom-cell_pre_2l1r", json!({"p": "loom", "loom": "cell_pre_2l1r", "pb": if ctx.quick() { json!(2) } else { Value::Null }})),
     ]
 }
 
@@ -758,6 +797,7 @@ fn run(ctx: &Ctx, spec: &PartSpec) -> PartResult {
     match spec.arg["p"].as_str().unwrap_or("") {
         "prog" => programs_part(ctx, &mut res, spec.arg["global"].as_bool().unwrap_or(false), spec.arg["recs"].as_u64().unwrap_or(2) as usize, spec.arg["steps"].as_u64().unwrap_or(6) as usize, spec.arg["nest"].as_u64().unwrap_or(2) as usize),
         "threads" => threads_part(&mut res),
+        "loom" => vcore::loompart::run_with_budget(spec.arg["loom"].as_str().unwrap_or(""), spec.arg["pb"].as_u64(), ctx.budget_s, &mut res),
         "install" => global_install_part(&mut res, spec.arg["steps"].as_u64().unwrap_or(3) as usize),
         _ => macro_forms(&mut res),
     }
